@@ -50,6 +50,66 @@ theorem c09_frame_roundtrip (f : Frame) (cc : Nat) (hf : FrameOk f) (hne : f.pay
       ∧ demuxPid f.pid tps = some [pesOf f] :=
   framePackets_demux genCfg f cc c09_source_facts.2.1 hf hne
 
+/-- A whole stream, every frame list: for EVERY list of frames on the video and audio PID (any
+    sizes, empty payloads allowed, any interleaving), the bytes written by NewWriter followed by
+    WriteMpegtsFrame per frame are: the PAT/PMT block followed by whole 188-byte packets
+    (`chunk188` returns the header's two packets and the media packets); every media packet is
+    accepted by the reference parser and is on one of the two PIDs; the continuity counter of
+    each PID counts 1, 2, 3, … modulo 16 across all frames; demultiplexing each PID yields
+    exactly one PES per frame with a non-empty payload, in order, each with the frame's bytes,
+    stream id, PTS/DTS, random-access flag and PCR (`pesOf`); the order in which the PES
+    packets start is the order of the frames. -/
+theorem c09_stream (fs : List Frame)
+    (h : ∀ f ∈ fs, FrameOk f ∧ (f.pid = genCfg.videoPid ∨ f.pid = genCfg.audioPid)) :
+    ∃ media tps,
+      chunk188 ((writeStream genCfg fs).length / 188 + 1) (writeStream genCfg fs)
+        = some (genCfg.header.take 188 :: genCfg.header.drop 188 :: media)
+      ∧ parsePackets media = some tps
+      ∧ (∀ p ∈ tps, p.pid = genCfg.videoPid ∨ p.pid = genCfg.audioPid)
+      ∧ ccChain 0 (tps.filter (·.pid == genCfg.videoPid)) = true
+      ∧ ccChain 0 (tps.filter (·.pid == genCfg.audioPid)) = true
+      ∧ demuxPid genCfg.videoPid tps = some (pesFor genCfg.videoPid fs)
+      ∧ demuxPid genCfg.audioPid tps = some (pesFor genCfg.audioPid fs)
+      ∧ (tps.filter (·.pusi)).map (·.pid) = startPids fs := by
+  obtain ⟨tps, hp, hpid, hv, ha, hu, ho⟩ :=
+    writeFrames_parse genCfg c09_source_facts.2.1 c09_source_facts.2.2.2.2.2.2.2.1 fs {} h
+  have h188 := parsePackets_all188 _ _ hp
+  refine ⟨Ts.writeFrames genCfg {} fs, tps, ?_, hp, hpid, hv, ha, ?_, ?_, ho⟩
+  · have hall : ∀ p ∈ genCfg.header.take 188 :: genCfg.header.drop 188 :: Ts.writeFrames genCfg {} fs, p.length = 188 := by
+      intro p hp'
+      rcases List.mem_cons.mp hp' with rfl | hp'
+      · decide +kernel
+      · rcases List.mem_cons.mp hp' with rfl | hp'
+        · decide +kernel
+        · exact h188 p hp'
+    have hcat : writeStream genCfg fs
+        = (genCfg.header.take 188 :: genCfg.header.drop 188 :: Ts.writeFrames genCfg {} fs).flatten := by
+      simp only [writeStream, List.flatten_cons, ← List.append_assoc, List.take_append_drop]
+    rw [hcat]
+    apply chunk188_flatten _ _ _ hall
+    have hl : (genCfg.header.take 188 :: genCfg.header.drop 188 :: Ts.writeFrames genCfg {} fs).flatten.length
+        = 188 * (Ts.writeFrames genCfg {} fs).length + 376 := by
+      simp only [List.flatten_cons, List.length_append]
+      have e1 : (genCfg.header.take 188).length = 188 := by decide +kernel
+      have e2 : (genCfg.header.drop 188).length = 188 := by decide +kernel
+      have e3 : ∀ (l : List (List UInt8)), (∀ p ∈ l, p.length = 188) → l.flatten.length = 188 * l.length := by
+        intro l
+        induction l with
+        | nil => intro _; simp
+        | cons a l ih =>
+          intro hl
+          simp only [List.flatten_cons, List.length_append, List.length_cons, hl a (List.mem_cons_self ..),
+            ih (fun p hp => hl p (List.mem_cons_of_mem _ hp))]
+          omega
+      rw [e1, e2, e3 _ h188]; omega
+    rw [hl]
+    simp only [List.length_cons]
+    omega
+  · obtain ⟨u, hu1, hu2⟩ := hu genCfg.videoPid
+    simp [demuxPid, hu1, hu2]
+  · obtain ⟨u, hu1, hu2⟩ := hu genCfg.audioPid
+    simp [demuxPid, hu1, hu2]
+
 /-- a frame with an empty payload writes nothing (`if len(frame.Payload) <= 0 { return }`) -/
 theorem c09_empty_payload_writes_nothing (f : Frame) (cc : Nat) (h : f.payload = []) :
     framePackets genCfg f cc = [] := by
@@ -137,6 +197,12 @@ theorem c09_adts (a : Asc) (payload rest : List UInt8) (ptsNs : Int) (f : Frame)
 /-- a key frame with PTS ≠ DTS satisfies `FrameOk` and has a non-empty payload -/
 example : FrameOk { pid := 256, streamId := 0xe0, dts := 90000, pts := 93003, header := [0,0,0,1,9,0xf0,0,0,1],
                     payload := [0x65, 0x88], key := true } := by
+  unfold FrameOk; decide
+
+/-- the hypothesis of `c09_stream` holds for a video + audio pair -/
+example : ∀ f ∈ [({ pid := 256, streamId := 0xe0, dts := 0, pts := 3003, header := [0,0,0,1], payload := [0x65], key := true } : Frame),
+                 { pid := 257, streamId := 0xc0, dts := 10, pts := 10, header := [0xff,0xf1], payload := [1,2,3], key := false }],
+    FrameOk f ∧ (f.pid = genCfg.videoPid ∨ f.pid = genCfg.audioPid) := by
   unfold FrameOk; decide
 
 example : ∃ f, videoFrame genCfg [0x67, 0x42] [0x68, 0xce] 1000000000 1033366667 [0x65, 0x88, 0x84] = some f ∧ f.key = true :=
